@@ -182,6 +182,19 @@ def run_simulator(case, ctx):
     em = error_model.InsErrorModel(wa)
     ctx.label(case['cls'], f"lever={case['lever']}", 'mode=3D' if wa else 'mode=2D')
     traj = pd.DataFrame([full.values, full.values], index=[t, t + 1.0], columns=full.index)
+    # the documented input is a table with *named* columns: other column orders and extra columns in front are the same input
+    lay = case['sub'] % 4
+    if lay == 1:
+        front = [c for c in traj.columns if c in RATE]
+        if not front:
+            traj.insert(0, 'extra', 7.0)
+            front = ['extra']
+        traj = traj[front + [c for c in traj.columns if c not in front]]
+    elif lay == 2:
+        traj = traj[list(traj.columns[::-1])]
+    elif lay == 3:
+        traj = traj[list(np.random.RandomState(case['sub']).permutation(traj.columns))]
+    ctx.label(f'columns={["canonical", "extra_first", "reversed", "permuted"][lay]}')
     if arm is not None and case['cls'] != 'BodyVelocity':
         site = ctx.sut(transform.translate_trajectory, traj, arm)       # the antenna trajectory
     else:
